@@ -10,7 +10,7 @@ TRUSTED = T01
 from props.chk_kernels import chk_tasks, chk_canaries
 
 
-def tasks(tier):
+def _tasks0(tier):
     from props.chk_parents import parent_tasks
     return chk_tasks("C17", tier) + parent_tasks(tier)
 
@@ -34,3 +34,10 @@ def scenarios(tier, seed):
 def run_scenario(p, wd):
     from harness.rt_tools import run_chk2plt_scenario
     return run_chk2plt_scenario(p, wd)
+
+
+
+def tasks(tier):
+    # the FAB header parsers / formatter (real bodies on canonical header text): the obligations behind the header contracts
+    from props.parsers import parser_tasks
+    return _tasks0(tier) + parser_tasks("C17", nds=(2, 3))
